@@ -290,6 +290,30 @@ def run_endpoints(chk, F, rid="R-ENDPT"):
     rf = F.fn("UTAP::XMLReader::reference")
     chk.ob(rid, "reference|id-to-name", any(c.get("name") == "get_name" for c in calls(rf["body"])),
            "XMLReader::reference does not translate the id through the id -> name table", "%s:%s" % (rf["file"], rf["line"]))
+    # the id -> name table: ids need only be unique per template (the reader merely warns about a repeated id), and
+    # references are looked up after the template's own elements were registered - so registration must OVERWRITE
+    writes = []
+    for q, fns in F.by_q.items():
+        if not q.startswith("UTAP::XMLReader::"):
+            continue
+        for fn in fns:
+            for c in calls(fn["body"]):
+                r = _strip(c.get("recv") or {})
+                if r.get("k") == "member" and r.get("name") == "names" and \
+                        c.get("name") in ("insert", "emplace", "try_emplace", "insert_or_assign", "emplace_hint"):
+                    writes.append((fn, c, c["name"]))
+            for x in walk(fn["body"]):
+                if x.get("k") in ("bin", "call") and x.get("op") == "=":
+                    lhs = x.get("lhs") or x.get("recv") or {}
+                    if "names[" in short(lhs).replace("this->", ""):
+                        writes.append((fn, x, "operator[]="))
+    if not writes:
+        raise AnalysisBroken("no registration into the XML reader's id -> name table found")
+    for fn, c, how in writes:
+        chk.ob(rid, "id-table|%s|%s" % (fn["name"], how), how in ("insert_or_assign", "operator[]="),
+               "%s registers an id with names.%s(), which keeps an EARLIER entry for the same id: when a later template "
+               "reuses an id, its <init>, <source> and <target> references resolve to the name the earlier template gave "
+               "that id" % (fn["q"], how), "%s:%s" % (fn["file"], c.get("l")))
     # builder: from -> fid -> arg0 of add_edge etc.
     pb = F.fn(DB + "::proc_edge_begin")
     pn = [p["name"] for p in pb["params"]]
